@@ -92,7 +92,13 @@ func (cr *chunkedReader) Read(b []uint8) (n int, err error) {
 			if cr.buf[0] != '\r' || cr.buf[1] != '\n' {
 				cr.err = errors.New("malformed chunked encoding")
 			}
+		} else if cr.err == io.EOF {
+			// the chunk data must be followed by CRLF
+			cr.err = io.ErrUnexpectedEOF
 		}
+	} else if cr.n > 0 && cr.err == io.EOF {
+		// the stream ended inside a chunk
+		cr.err = io.ErrUnexpectedEOF
 	}
 	return n, cr.err
 }
